@@ -273,6 +273,22 @@ def designed_codes():
     for name, rd in (("gas", h("5a")), ("msize", h("59")), ("selfbalance", h("47")), ("returndatasize", h("3d"))):
         body = rd + rd + h("14")
         out.append((f"reads-differ-{name}", body + C.push(len(body) + 2 + 1 + 1, 1) + h("57") + h("00") + h("5b00")))
+    # exp with a literal base and an exponent the block does not know: the result is a value the solver must
+    # leave open (only its EVM value decides the transfer) -- the exponent is shaped so that huge exponents
+    # (products/masks that wrap) are what distinguishes the edges
+    srcs = (("callvalue", h("34")), ("calldata", C.push(0) + h("35")), ("entry", b""))
+    shapes = (("plain", b""), ("top3", p32(0xE0 << 248) + h("16")), ("top1", p32(1 << 255) + h("16")), ("times-2^254", p32(1 << 254) + h("02")),
+              ("low8", C.push(0xFF) + h("16")))
+    for base in (2, 4, 256, 1 << 63, 3):
+        for sn, src in srcs:
+            for hn, shape in shapes:
+                if (base in (2, 1 << 63, 3)) and sn == "calldata":
+                    continue
+                body = src + shape + C.push(base) + h("0a")
+                tgt = len(body) + 1 + 2 + 1 + 1
+                out.append((f"exp-open-exponent-{hn}", body + h("15") + C.push(tgt, 1) + h("57") + h("00") + h("5b00")))
+                if hn in ("top3", "top1", "plain"):
+                    out.append((f"exp-open-exponent-{hn}", jump_via(body, 1)))
     out += [
         ("miss-sub", C.push(1 << 255, 32) + C.push(((1 << 255) + 5) % W, 32) + b"\x03\x56" + b"\x5b\x00"),
         ("exp-symbolic", h("34") + C.push(2) + h("0a") + h("56") + h("5b00")),
